@@ -766,6 +766,31 @@ class Interp(ExprMixin):
         if isinstance(f, Closure):
             return self.call_closure(f, args, kwargs, node)
         ft = self.to_term(f)
+        if ft[0] == "phi" and len(ft) == 4 and any(isinstance(x, tuple) and x and x[0] in ("attr", "phi", "boundmethod") for x in (ft[2], ft[3])):
+            # a method chosen by a conditional (getattr(obj, name) with a name read from a table): each alternative is called
+            # under its condition
+            results = []
+
+            def call_alt(t_):
+                def run():
+                    if t_ == NONE or (isinstance(t_, tuple) and t_ and t_[0] in ("unk", "k")):
+                        results.append(NONE)
+                        return None
+                    if t_[0] in ("attr", "boundmethod"):
+                        recv_, name_ = t_[1], t_[2]
+                        r_ = ("mcall", recv_, name_, tuple(self.to_term(a) for a in args), tuple((k, self.to_term(v)) for k, v in kwargs))
+                        self.event("mcall", {"recv": recv_, "name": name_, "args": r_[3], "kwargs": r_[4]}, node)
+                        results.append(r_)
+                        return None
+                    results.append(self.to_term(self.call_value(t_, args, kwargs, node)) if hasattr(self, "call_value") else ("unk", "call"))
+                    return None
+                return run
+            if ft[2][0] == "phi" or ft[3][0] == "phi":
+                # nested chains: handled by recursion on the alternatives through a synthetic callee term
+                pass
+            self._branch(ft[1], call_alt(ft[2]) if ft[2][0] != "phi" else (lambda: self._call_conditional(ft[2], args, kwargs, node, results)),
+                         call_alt(ft[3]) if ft[3][0] != "phi" else (lambda: self._call_conditional(ft[3], args, kwargs, node, results)))
+            return results[0] if len(results) == 1 else (mkphi(ft[1], results[0], results[1]) if len(results) >= 2 else NONE)
         if ft[0] == "phi" and all(isinstance(x, tuple) and x and x[0] == "ext" for x in (ft[2], ft[3])):
             # a function chosen by a conditional (`op = operator.lt if kind == "min" else operator.gt`): the call is the
             # conditional of the two calls
@@ -784,6 +809,22 @@ class Interp(ExprMixin):
         r = ("call", show(ft), tuple(self.to_term(a) for a in args), tuple((k, self.to_term(v)) for k, v in kwargs))
         self.event("call", {"name": show(ft), "args": r[2], "kwargs": r[3]}, node)
         return r
+
+    def _call_conditional(self, ft, args, kwargs, node, results):
+        """helper of the conditional-callee case: ft is a nested ("phi", g, a, b) of method terms"""
+        def alt(t_):
+            def run():
+                if isinstance(t_, tuple) and t_ and t_[0] == "phi" and len(t_) == 4:
+                    return self._call_conditional(t_, args, kwargs, node, results)
+                if isinstance(t_, tuple) and t_ and t_[0] in ("attr", "boundmethod"):
+                    r_ = ("mcall", t_[1], t_[2], tuple(self.to_term(a) for a in args), tuple((k, self.to_term(v)) for k, v in kwargs))
+                    self.event("mcall", {"recv": t_[1], "name": t_[2], "args": r_[3], "kwargs": r_[4]}, node)
+                    results.append(r_)
+                else:
+                    results.append(NONE)
+                return None
+            return run
+        return self._branch(ft[1], alt(ft[2]), alt(ft[3]))
 
     # -- external / builtin ---------------------------------------------------------
     OPERATOR_FUNCS = {"le": "<=", "lt": "<", "ge": ">=", "gt": ">", "eq": "==", "ne": "!=", "add": "+", "sub": "-", "mul": "*",
@@ -868,6 +909,23 @@ class Interp(ExprMixin):
                     return K({"int": int, "float": float, "str": str, "bool": bool, "abs": abs}[b](targs[0][1]))
                 except Exception:
                     pass
+            if b == "getattr" and len(args) in (2, 3) and not tkw:
+                nm = targs[1]
+
+                def attr_of(n_):
+                    if is_const(n_) and isinstance(n_[1], str):
+                        return self.to_term(self.getattr(args[0], n_[1], node))
+                    if isinstance(n_, tuple) and n_ and n_[0] == "phi" and len(n_) == 4:
+                        a_, b_ = attr_of(n_[2]), attr_of(n_[3])
+                        return None if a_ is None or b_ is None else mkphi(n_[1], a_, b_)
+                    if n_ == NONE:
+                        return NONE
+                    return None
+                if is_const(nm) and isinstance(nm[1], str):
+                    return self.getattr(args[0], nm[1], node)
+                got = attr_of(nm)
+                if got is not None:
+                    return got
             if b == "str" and len(targs) == 1 and not tkw:
                 # str(x) and f"{x}" are the same string
                 t0 = targs[0]
@@ -951,6 +1009,12 @@ class Interp(ExprMixin):
                         if k == key:
                             return v
                     return default
+                if ents and all(is_const(k) and not l and not g for (k, v, l, g) in ents):
+                    # a table read with a key that is not a configuration atom: the chain of its cases
+                    res = self.to_term(default)
+                    for (k, v, l, g) in reversed(ents):
+                        res = mkphi(app("==", key, k), self.to_term(v), res)
+                    return res
                 return self.subscript(recv, key)
             self.unknown(f"dict method {name}", node)
             return ("unk", f"dict.{name}")
